@@ -24,15 +24,17 @@ ASSUMPTIONS = [
     "wrong-side infinite limits (lb=+inf, ub=-inf) are enumerated for linear constraints only, where the statement "
     "says they are dropped",
 ]
-RULE = ("every assignment of the 9 limit patterns {(-inf,inf),(-inf,b),(a,inf),(a,b),(a,a),(a,a+ulp),(NaN,b),(a,NaN),"
-        "(NaN,NaN)} (+2 wrong-side patterns for linear) to 1..3 components (4 thorough) of one constraint object, "
+RULE = ("every assignment of the 10 limit patterns {(-inf,inf),(-inf,b),(a,inf),(a,b),(a,a),(a,a+ulp),(NaN,b),(a,NaN),"
+        "(NaN,NaN),(a,a+2^-21)} (+2 wrong-side patterns for linear) to 1..3 components (4 thorough) of one constraint object, "
         "linear and nonlinear, x every value vector over {below lb, lb, inside, ub, above ub}; scalar-broadcast limits; "
         "NaN coefficients; and every ordered sequence of 0..2 linear and 0..2 nonlinear objects (3 thorough) from a "
         "6-object menu through minimize(maxfev=1) at 25 points. Non-trivial = (pattern, values) pair with a positive "
         "excess; distinct = distinct (configuration, value vector).")
 
 PATS = [(-INF, INF), (-INF, B_), (A_, INF), (A_, B_), (A_, A_), (A_, float(np.nextafter(A_, INF))),
-        (NAN, B_), (A_, NAN), (NAN, NAN)]
+        (NAN, B_), (A_, NAN), (NAN, NAN),
+        # a narrow but genuine interval (relative width ~1e-6): two inequalities, not an equality
+        (A_, A_ + 2.0 ** -21)]
 LIN_EXTRA = [(INF, INF), (-INF, -INF)]
 VALS = [A_ - 1.0, A_, 0.25, B_, B_ + 1.0]
 
@@ -81,7 +83,7 @@ def roots(tier, seed):
     out = []
     kmax = 3 if tier == "quick" else 4
     for kind in ("nl", "lin"):
-        pats = list(range(len(PATS))) + ([9, 10] if kind == "lin" else [])
+        pats = list(range(len(PATS))) + ([len(PATS), len(PATS) + 1] if kind == "lin" else [])
         for k in range(1, kmax + 1):
             for first in pats:
                 if k == 1:
@@ -90,7 +92,7 @@ def roots(tier, seed):
                     for second in pats:
                         if k == 2:
                             out.append({"part": "single", "kind": kind, "k": 2, "first": [first, second]})
-                        elif kind == "lin" and (first >= 9 or second >= 9) and k > 3:
+                        elif kind == "lin" and (first >= len(PATS) or second >= len(PATS)) and k > 3:
                             continue
                         else:
                             out.append({"part": "single", "kind": kind, "k": k, "first": [first, second]})
